@@ -1,6 +1,7 @@
 SPECIFICATION Spec
 CONSTANTS
   Node = {n1, n2, n3}
+  Voter = {n1, n2, n3}
   MaxTerm = 2
   MaxLog = 4
   NonCmdKinds = {}
